@@ -73,12 +73,17 @@ def gen(rs: int, tier: str, index: int) -> dict:
     # half of the runs: every task has a parameter annotated Union[bool, int, float, str, None] and the messages carry scalars
     # that compare (and hash) equal across messages but differ in type: True / 1 / 1.0, False / 0 / 0.0
     typed_scalars = r.random() < 0.5
+    state_task = None
     if typed_scalars:
         for t in s["tasks"]:
             t["uparam"] = True
+        if r.random() < 0.5:
+            # a task whose only dependency comes straight from the broker-wide dependency context (TaskiqState), no Context
+            state_task = len(s["tasks"]) - 1
+            s["tasks"].insert(state_task, {"name": "tstate", "ctx": False, "sync": False, "deps": [], "root": [], "state_dep": True, "uparam": True})
     for m in s["messages"]:
         if m.get("kind", "valid") == "valid":
-            if typed_scalars:
+            if typed_scalars and r.random() < 0.75:          # (some messages leave the optional parameter out)
                 m["kwargs"] = {"u": r.choice([True, 1, 1.0, False, 0, 0.0, True, 1, 1.0, "1", 2, 2.0])}
             m["labels"] = {"own": ["str", f"L{m['k']}"], "n": ["int", str(m["k"] * 7)]}
             if r.random() < 0.35:
@@ -88,7 +93,15 @@ def gen(rs: int, tier: str, index: int) -> dict:
             m["args"] = [f"a{m['k']}"]
             # prefer tasks with dependencies
             cands = [i for i, t in enumerate(s["tasks"]) if t.get("deps")]
-            if cands and r.random() < 0.8:
+            if state_task is not None and r.random() < 0.5:
+                m["task"] = state_task
+                for a in m.get("attempts", []):
+                    if a.get("out", ["ret"])[0] in ("requeue", "reject"):
+                        a["out"] = ["ret"]
+                m.pop("pool_delay_us", None)
+                m.pop("dep_us", None)
+                m.pop("dep_fail", None)
+            elif cands and r.random() < 0.8:
                 m["task"] = r.choice(cands)
                 ts = s["tasks"][m["task"]]
                 du = {}
